@@ -192,3 +192,60 @@ Example C11_trace_example :
   rev (map fst (calls g)) = [0; 1] /\ rev (exits g) = [0; 1] /\ rev (thrown g) = [0; 1] /\
   map sg (sigs g) = [SError (Some 0)] /\ rev (fin g) = [0; 1]%nat /\ remaining g = 0 /\ guard tr_cf.
 Proof. vm_compute. repeat split; try discriminate; try lia; auto. Qed.
+
+(* ================================================================== the end-to-end acceptor [chunk_calls]
+   harness E2E runs (schedule not controlled) are compared per chunk with [chunk_calls throws i_begin len 0]:
+   the number of calls of f for the chunk and whether one threw.  Characterised for every throwing
+   predicate, start, length and accumulator (closes "chunk_calls is an acceptor without a theorem"). *)
+From Pika Require Import Proofs.BulkChunkCalls.
+
+(* nothing in the chunk throws: every index of the chunk is called *)
+Theorem C11_chunk_calls_nothrow : forall throws fuel i acc,
+  (forall j, i <= j -> j < i + N.of_nat fuel -> throws j = false) ->
+  chunk_calls throws i fuel acc = (acc + N.of_nat fuel, false).
+Proof. exact chunk_calls_nothrow. Qed.
+Print Assumptions C11_chunk_calls_nothrow.
+
+(* x is the first throwing index of the chunk: exactly i..x are called *)
+Theorem C11_chunk_calls_first_throw : forall throws fuel i acc x,
+  i <= x -> x < i + N.of_nat fuel -> throws x = true ->
+  (forall j, i <= j -> j < x -> throws j = false) ->
+  chunk_calls throws i fuel acc = (acc + (x - i) + 1, true).
+Proof. exact chunk_calls_first_throw. Qed.
+Print Assumptions C11_chunk_calls_first_throw.
+
+(* the two cases are exhaustive *)
+Theorem C11_chunk_first_throw_exhaustive : forall throws fuel i,
+  (forall j, i <= j -> j < i + N.of_nat fuel -> throws j = false) \/
+  (exists x, i <= x /\ x < i + N.of_nat fuel /\ throws x = true /\
+             forall j, i <= j -> j < x -> throws j = false).
+Proof. exact first_throw_dec. Qed.
+Print Assumptions C11_chunk_first_throw_exhaustive.
+
+(* it reports a throw exactly when some index of the chunk throws *)
+Theorem C11_chunk_calls_threw_iff : forall throws fuel i acc,
+  snd (chunk_calls throws i fuel acc) = true <->
+  exists x, i <= x /\ x < i + N.of_nat fuel /\ throws x = true.
+Proof. exact chunk_calls_threw_iff. Qed.
+Print Assumptions C11_chunk_calls_threw_iff.
+
+(* it agrees with the generic-bulk loop of bulk.hpp on the same range *)
+Theorem C11_chunk_calls_agrees_with_generic_loop : forall throws fuel i acc,
+  N.of_nat (length (fst (gen_loop throws i fuel acc))) =
+    fst (chunk_calls throws i fuel (N.of_nat (length acc))) /\
+  (match snd (gen_loop throws i fuel acc) with Some _ => true | None => false end) =
+    snd (chunk_calls throws i fuel (N.of_nat (length acc))).
+Proof. exact gen_loop_chunk_calls. Qed.
+Print Assumptions C11_chunk_calls_agrees_with_generic_loop.
+
+(* the generic loop calls i, i+1, ... consecutively *)
+Theorem C11_generic_loop_calls_consecutive : forall throws fuel i acc,
+  exists k, (k <= fuel)%nat /\
+    fst (gen_loop throws i fuel acc) = rev acc ++ map (fun d => i + N.of_nat d) (seq 0 k).
+Proof. exact gen_loop_calls. Qed.
+Print Assumptions C11_generic_loop_calls_consecutive.
+
+Example C11_chunk_calls_example :
+  chunk_calls (fun j => N.eqb j 30) 28 8 0 = (3, true) /\
+  chunk_calls (fun j => N.eqb j 30) 32 8 0 = (8, false).
+Proof. vm_compute. split; reflexivity. Qed.
